@@ -594,6 +594,13 @@ def run(ctx):
     from .generic import per_instance_state, ctor_forwards_params
     per_instance_state(ctx, 'R01.9', ['pool'], floor=8, classes={'ApplyResult', 'IMapIterator'})
     ctor_forwards_params(ctx, 'R01.10', ['pool'], floor=4)
+    # result handling and the handles: a lookup-error handler that no longer matches its lookup lets the new failure
+    # out into the result thread (host exit) or into the dispatcher's except KeyError (message dropped)
+    from .generic import handlers_match_lookups
+    handlers_match_lookups(ctx, 'R01.11', ['pool'], floor=4,
+                           only=lambda f: f.qual.split(':')[1].split('.')[0] in
+                           ('ResultHandler', 'TaskHandler', 'ApplyResult', 'MapResult', 'IMapIterator',
+                            'IMapUnorderedIterator'))
     ctx.assume('messages on one pipe are delivered in order and not lost by the kernel')
 
 
